@@ -179,7 +179,9 @@ package gcsemu
 //@   loop 1 invariant len(reqs) == len(contentIds)
 //@   loop 1 invariant forall k :: 0 <= k < len(reqs) ==> reqs[k] != nil && reqs[k].URL != nil && reqs[k].Header != nil && reqs[k].Body != nil
 //@   loop 2 invariant len(reqs) == len(contentIds)
-//@   loop 2 invariant forall k :: 0 <= k < len(reqs) ==> reqs[k] != nil && reqs[k].URL != nil && reqs[k].Header != nil && reqs[k].Body != nil
+// (URL, Header and Body of a request are non-nil by the typeinv declarations above; the elements of the local slice
+// reqs survive g.Handler's `modifies *`: its backing array is private to this function)
+//@   loop 2 invariant forall k :: 0 <= k < len(reqs) ==> reqs[k] != nil
 
 // ---------------------------------------------------------------------------------------------
 // http_wrappers.go: the wrappers only build closures. NOTE: govc does not verify the bodies of returned
